@@ -1,16 +1,23 @@
-use std::{cell::RefCell, fmt, rc::Rc};
+use std::{
+    cell::RefCell,
+    fmt,
+    rc::{Rc, Weak},
+};
 
 use crate::{
     container::Container,
     object::{Object, RTObject},
     path::{Component, Path},
-    pointer::{self, Pointer},
+    pointer::Pointer,
     push_pop::PushPopType,
 };
 
 pub struct Divert {
     obj: Object,
-    target_pointer: RefCell<Pointer>,
+    // The resolved target is cached weakly: a divert that points at one of its own
+    // ancestors (every loop does) would otherwise keep the whole content tree alive
+    // in a reference cycle after the story is dropped.
+    target_pointer: RefCell<Option<(Weak<Container>, i32)>>,
     target_path: RefCell<Option<Path>>,
     pub external_args: usize,
     pub is_conditional: bool,
@@ -37,7 +44,7 @@ impl Divert {
             stack_push_type,
             is_external,
             external_args,
-            target_pointer: RefCell::new(pointer::NULL.clone()),
+            target_pointer: RefCell::new(None),
             target_path: RefCell::new(Self::target_path_string(target_path)),
             variable_divert_name: var_divert_name,
         }
@@ -80,39 +87,48 @@ impl Divert {
     }
 
     pub fn get_target_pointer(self: &Rc<Self>) -> Pointer {
-        let target_pointer_null = self.target_pointer.borrow().is_null();
-        if target_pointer_null {
-            let target_obj =
-                Object::resolve_path(self.clone(), self.target_path.borrow().as_ref().unwrap())
-                    .obj
-                    .clone();
+        if let Some((container, index)) = self.target_pointer.borrow().as_ref()
+            && let Some(container) = container.upgrade()
+        {
+            return Pointer::new(Some(container), *index);
+        }
 
-            if self
-                .target_path
-                .borrow()
-                .as_ref()
-                .unwrap()
-                .get_last_component()
-                .unwrap()
-                .is_index()
-            {
-                self.target_pointer.borrow_mut().container = target_obj.get_object().get_parent();
-                self.target_pointer.borrow_mut().index = self
-                    .target_path
+        let target_obj =
+            Object::resolve_path(self.clone(), self.target_path.borrow().as_ref().unwrap())
+                .obj
+                .clone();
+
+        let target_pointer = if self
+            .target_path
+            .borrow()
+            .as_ref()
+            .unwrap()
+            .get_last_component()
+            .unwrap()
+            .is_index()
+        {
+            Pointer::new(
+                target_obj.get_object().get_parent(),
+                self.target_path
                     .borrow()
                     .as_ref()
                     .unwrap()
                     .get_last_component()
                     .unwrap()
                     .index
-                    .unwrap() as i32;
-            } else {
-                let c = target_obj.into_any().downcast::<Container>();
-                self.target_pointer.replace(Pointer::start_of(c.unwrap()));
-            }
+                    .unwrap() as i32,
+            )
+        } else {
+            let c = target_obj.into_any().downcast::<Container>();
+            Pointer::start_of(c.unwrap())
+        };
+
+        if let Some(container) = &target_pointer.container {
+            self.target_pointer
+                .replace(Some((Rc::downgrade(container), target_pointer.index)));
         }
 
-        self.target_pointer.borrow().clone()
+        target_pointer
     }
 
     pub fn get_target_path(self: &Rc<Self>) -> Option<Path> {
